@@ -5,6 +5,7 @@ go 1.23.0
 require (
 	github.com/dunglas/mercure v0.0.0
 	github.com/golang-jwt/jwt/v5 v5.2.1
+	github.com/yosida95/uritemplate/v3 v3.0.2
 	go.uber.org/zap v1.27.0
 )
 
@@ -38,7 +39,6 @@ require (
 	github.com/spf13/viper v1.19.0 // indirect
 	github.com/subosito/gotenv v1.6.0 // indirect
 	github.com/unrolled/secure v1.17.0 // indirect
-	github.com/yosida95/uritemplate/v3 v3.0.2 // indirect
 	go.etcd.io/bbolt v1.4.0 // indirect
 	go.uber.org/multierr v1.11.0 // indirect
 	golang.org/x/crypto v0.33.0 // indirect
